@@ -7,8 +7,7 @@ pub uninterp spec fn visit_rel_spec(node: RelationContextAll) -> Expr;
 pub uninterp spec fn visit_calc_spec(node: CalcContextAll) -> Expr;
 pub uninterp spec fn visit_unary_spec(node: UnaryContextAll) -> Expr;
 pub uninterp spec fn tok_text(t: CommonToken) -> Seq<char>;
-/// operators::find_operator (a table lookup over string constants): uninterpreted function of the operator text
-pub uninterp spec fn find_operator_spec(text: Seq<char>) -> Option<Seq<char>>;
+/// operators::find_operator: verified against the operator table find_operator_spec (prelude/operators_spec.rs) in group operators
 impl CommonToken {
     #[verifier::external_body] pub fn get_text(&self) -> (r: &str) ensures r@ == tok_text(*self) { unimplemented!() }
 }
